@@ -119,19 +119,26 @@ theorem bal_transfer_undo (B : Addr → Nat) (src dst : Addr) (v : Nat) (hb : B 
       · simp [upd, hx, hx2]
 
 theorem transfer_pushes {db : Db} {s s' : JState} {src dst : Addr} {v : Nat} {r : Option TransferErr}
-    (hbal : BalOk (absT db s)) (h : transfer db s src dst v = some (s', r)) : ∃ es, Pushes db s s' es := by
+    (hbal : BalOk (absT db s)) (h : transfer db s src dst v = some (s', r)) :
+    (∃ es, Pushes db s s' es) ∧ Warms db s s' [src, dst] [] := by
   simp only [transfer, bind, Option.bind] at h
   cases hl1 : loadAccount db s src with
   | none => simp [hl1] at h
   | some r1 =>
     obtain ⟨s1, c1⟩ := r1
-    obtain ⟨p1, _, _⟩ := loadAccount_pushes hl1
+    obtain ⟨p1, hc1, _⟩ := loadAccount_pushes hl1
+    have w1 := Warms.of_load p1 hc1
     simp [hl1] at h
     cases hl2 : loadAccount db s1 dst with
     | none => simp [hl2] at h
     | some r2 =>
       obtain ⟨s2, c2⟩ := r2
-      obtain ⟨p2, _, _⟩ := loadAccount_pushes hl2
+      obtain ⟨p2, hc2, _⟩ := loadAccount_pushes hl2
+      have w12 : Warms db s s2 [src, dst] [] := by simpa using Warms.trans w1 (Warms.of_load p2 hc2)
+      have wrest : ∀ {sF : JState} {es : List Entry}, Pushes db s2 sF es → NoWarm es → Warms db s sF [src, dst] [] := by
+        intro sF es p hn; simpa using Warms.trans w12 (p.warms_nil hn)
+      have nwBT : NoWarm [Entry.balanceTransfer src dst v] :=
+        NoWarm.single (fun _ h => by cases h) (fun _ _ h => by cases h)
       simp [hl2] at h
       cases hs2 : s2.state src with
       | none => simp [hs2] at h
@@ -147,7 +154,7 @@ theorem transfer_pushes {db : Db} {s s' : JState} {src dst : Addr} {v : Nat} {r 
           have hb : fa.info.balance < W := by rw [← absT_balance_some db hs3]; exact hbal3 src
           simp [ht1] at h
           by_cases hf : fa.info.balance < v
-          · simp [hf] at h; obtain ⟨h1, _⟩ := h; subst h1; exact ⟨_, p03⟩
+          · simp [hf] at h; obtain ⟨h1, _⟩ := h; subst h1; exact ⟨⟨_, p03⟩, wrest p3 (NoWarm.touched _ _)⟩
           · have hv : v ≤ fa.info.balance := Nat.le_of_not_lt hf
             simp [hf] at h
             generalize hs4 : setAcct s3 src { fa with info := { fa.info with balance := fa.info.balance - v } } = s4 at h
@@ -175,8 +182,11 @@ theorem transfer_pushes {db : Db} {s s' : JState} {src dst : Addr} {v : Nat} {r 
                     simp [hs5s] at h; obtain ⟨h1, _⟩ := h; subst h1
                     have hfb : f.info.balance = fa.info.balance - v := by
                       rw [← absT_balance_some db hs5s, hB5]; simp
-                    refine ⟨_, Pushes.trans p03 (transfer_tail (es := []) hs3 p45 (touchedOnly_ite _ _)
-                      (fun _ _ h => by simpa using h) rfl rfl rfl ?_ (by simp) ?_)⟩
+                    have ptail : Pushes db s3 (setAcct s5 src { f with info := { f.info with balance := U256.wadd f.info.balance v } }) ([] ++ _) :=
+                      transfer_tail (es := []) hs3 p45 (touchedOnly_ite _ _)
+                      (fun _ _ h => by simpa using h) rfl rfl rfl ?_ (by simp) ?_
+                    refine ⟨⟨_, Pushes.trans p03 ptail⟩, wrest (Pushes.trans p3 ptail)
+                      (NoWarm.append (NoWarm.append NoWarm.nil (NoWarm.touched _ _)) (NoWarm.touched _ _))⟩
                     · simp only [undoTs]
                       rw [absT_setAcct_bal db hs5s, hB5, hfb, wadd_sub_cancel hb hv, upd_upd_same, upd_self' hfa]
                     · intro _; apply BalOk.of_eq (x := absT db s3) _ hbal3
@@ -194,9 +204,12 @@ theorem transfer_pushes {db : Db} {s s' : JState} {src dst : Addr} {v : Nat} {r 
                   have hfin := bal_transfer_undo (absT db s3).balance src dst v (by rw [hfa]; exact hb)
                     (by rw [hfa]; exact hv) (by rw [hfa, ← hta]; exact hlt)
                   rw [hfa, ← hta] at hfin
-                  refine ⟨_, Pushes.trans p03 (transfer_tail (es := [.balanceTransfer src dst v]) hs3 p45
+                  have ptail : Pushes db s3 s7 ([.balanceTransfer src dst v] ++ _) :=
+                    transfer_tail (es := [.balanceTransfer src dst v]) hs3 p45
                     (touchedOnly_ite _ _) (fun t r hj => by simpa using p7.journal t r (by simpa using hj))
-                    p7.spec p7.pre p7.logs ?_ (by simp) ?_)⟩
+                    p7.spec p7.pre p7.logs ?_ (by simp) ?_
+                  refine ⟨⟨_, Pushes.trans p03 ptail⟩, wrest (Pushes.trans p3 ptail)
+                    (NoWarm.append (NoWarm.append nwBT (NoWarm.touched _ _)) (NoWarm.touched _ _))⟩
                   · simp only [undoTs, e7, hB5]
                     show setBal (absT db s5) _ = _
                     simp only [setBal_balance]
@@ -224,19 +237,20 @@ theorem selfdestruct_self {db : Db} {s sF : JState} {a : Addr} {acc : Acct} (con
     (h : (if cond then
             pushEntry (setAcct s a { acc with selfdestructed := true, info := { acc.info with balance := 0 } })
               (.accountDestroyed a a acc.selfdestructed acc.info.balance)
-          else some s) = some sF) : ∃ es, Pushes db s sF es := by
+          else some s) = some sF) : ∃ es, Pushes db s sF es ∧ NoWarm es := by
   have ha := absAcct_some db s hs
   have hb : acc.info.balance < W := by rw [← absT_balance_some db hs]; exact hbal a
   by_cases hc : cond
   · rw [if_pos hc] at h
-    refine ⟨_, Pushes.of_push h rfl rfl rfl rfl ?_ (by simp) ?_⟩
+    refine ⟨_, Pushes.of_push h rfl rfl rfl rfl ?_ (by simp) ?_,
+      NoWarm.single (fun _ h => by cases h) (fun _ _ h => by cases h)⟩
     · simp [absT_setAcct, putA, undoT, absOf, upd_upd_same, ha, upd_self', absSlot_some, wadd_zero_left hb]
     · intro _ x
       simp only [absT_setAcct, putA, absOf]
       by_cases hx : x = a
       · subst hx; simp; rw [W_val]; decide
       · rw [upd_ne' hx]; exact hbal x
-  · rw [if_neg hc] at h; simp at h; subst h; exact ⟨[], Pushes.refl db s⟩
+  · rw [if_neg hc] at h; simp at h; subst h; exact ⟨[], Pushes.refl db s, NoWarm.nil⟩
 
 
 /-- `selfdestruct`, `a ≠ target`: credit of the (touched) target, then the debit of `a` with its entry -/
@@ -250,7 +264,7 @@ theorem selfdestruct_other {db : Db} {s sF : JState} {a t : Addr} {acc tacc : Ac
           else
             pushEntry (setAcct (setAcct s t { tacc with info := { tacc.info with balance := U256.wadd tacc.info.balance acc.info.balance } })
                 a { acc with info := { acc.info with balance := 0 } })
-              (.balanceTransfer a t acc.info.balance)) = some sF) : ∃ es, Pushes db s sF es := by
+              (.balanceTransfer a t acc.info.balance)) = some sF) : ∃ es, Pushes db s sF es ∧ NoWarm es := by
   have ha := absAcct_some db s hs
   have hta' := absAcct_some db s hst
   have hta : ¬ t = a := fun e => hat e.symm
@@ -268,24 +282,27 @@ theorem selfdestruct_other {db : Db} {s sF : JState} {a t : Addr} {acc tacc : Ac
       · rw [upd_ne' hx2]; exact hbal x
   by_cases hc : cond
   · rw [if_pos hc] at h
-    refine ⟨_, Pushes.of_push h rfl rfl rfl rfl ?_ (by simp) (fun _ => hB _ rfl)⟩
+    refine ⟨_, Pushes.of_push h rfl rfl rfl rfl ?_ (by simp) (fun _ => hB _ rfl),
+      NoWarm.single (fun _ h => by cases h) (fun _ _ h => by cases h)⟩
     simp [absT_setAcct, putA, undoT, absOf, upd_upd_same, ha, hta', upd_self', upd_ne', absSlot_some, hta, hat,
       wadd_zero_left hb, upd_upd_upd_ne, bsub_wadd_cancel htb hb]
   · rw [if_neg hc] at h
-    refine ⟨_, Pushes.of_push h rfl rfl rfl rfl ?_ (by simp) (fun _ => hB _ rfl)⟩
+    refine ⟨_, Pushes.of_push h rfl rfl rfl rfl ?_ (by simp) (fun _ => hB _ rfl),
+      NoWarm.single (fun _ h => by cases h) (fun _ _ h => by cases h)⟩
     simp [absT_setAcct, putA, undoT, absOf, upd_upd_same, ha, hta', upd_self', upd_ne', absSlot_some, hta, hat,
       wadd_zero_left hb, upd_upd_upd_ne, bsub_wadd_cancel htb hb]
 
 
 theorem selfdestruct_pushes {db : Db} {s s' : JState} {a t : Addr} {r : Bool × Bool × Bool × Bool}
     (hbal : BalOk (absT db s)) (h : selfdestruct db s a t = some (s', r)) :
-    (∃ es, Pushes db s s' es) ∧ r.2.2.2 = !(absT db s).warm t := by
+    (∃ es, Pushes db s s' es) ∧ r.2.2.2 = !(absT db s).warm t ∧ Warms db s s' [t] [] := by
   simp only [selfdestruct, bind, Option.bind] at h
   cases hl1 : loadAccount db s t with
   | none => simp [hl1] at h
   | some r1 =>
     obtain ⟨s1, c1⟩ := r1
     obtain ⟨p1, hc1, _⟩ := loadAccount_pushes hl1
+    have w1 := Warms.of_load p1 hc1
     have hbal1 := p1.bal hbal
     simp [hl1] at h
     cases hst1 : s1.state t with
@@ -299,8 +316,8 @@ theorem selfdestruct_pushes {db : Db} {s s' : JState} {a t : Addr} {r : Bool × 
         · simp at h
         · rename_i sF _ hX
           simp at h; obtain ⟨h1, h2⟩ := h; subst h1
-          obtain ⟨es, p2⟩ := selfdestruct_self (db := db) _ hbal1 hst1 hX
-          exact ⟨⟨_, Pushes.trans p1 p2⟩, by rw [← h2]; exact hc1⟩
+          obtain ⟨es, p2, n2⟩ := selfdestruct_self (db := db) _ hbal1 hst1 hX
+          exact ⟨⟨_, Pushes.trans p1 p2⟩, by rw [← h2]; exact hc1, by simpa using Warms.trans w1 (p2.warms_nil n2)⟩
       · simp [hat] at h
         cases hs1 : s1.state a with
         | none => simp [hs1] at h
@@ -319,8 +336,9 @@ theorem selfdestruct_pushes {db : Db} {s s' : JState} {a t : Addr} {r : Bool × 
             · simp at h
             · rename_i sF _ hX
               simp at h; obtain ⟨h1, h2⟩ := h; subst h1
-              obtain ⟨es, p3⟩ := selfdestruct_other (db := db) _ hat hbal2 hs2 hst2 hX
-              exact ⟨⟨_, Pushes.trans (Pushes.trans p1 p2) p3⟩, by rw [← h2]; exact hc1⟩
+              obtain ⟨es, p3, n3⟩ := selfdestruct_other (db := db) _ hat hbal2 hs2 hst2 hX
+              exact ⟨⟨_, Pushes.trans (Pushes.trans p1 p2) p3⟩, by rw [← h2]; exact hc1,
+                by simpa using Warms.trans w1 ((Pushes.trans p2 p3).warms_nil (NoWarm.append n3 (NoWarm.touched _ _)))⟩
 
 
 end Revm.Proofs.Journal
